@@ -184,11 +184,26 @@ def pick(n, i):
     return None
 
 # ---------------------------------------------------------------- running concrete bodies at native speed
+class NonTermination(Exception):
+    pass
+
+def _alarm(signum, frame):
+    raise NonTermination("the concrete body did not finish within %d s (normal: milliseconds)" % GUARD_SECONDS)
+
+GUARD_SECONDS = 20
+
 class untraced:
     """after the symbolic choices have been forked into concrete values, run the (now concrete) body without CrossHair's
-    opcode tracing; a no-op in plain Python (replays)"""
+    opcode tracing; a no-op in plain Python (replays).  A wall-clock guard turns non-termination into an exception
+    (i.e. a counterexample) instead of a hung worker."""
     def __enter__(self):
         self.cm = None
+        import signal
+        try:
+            self._old = signal.signal(signal.SIGALRM, _alarm)
+            signal.alarm(GUARD_SECONDS)
+        except ValueError:
+            self._old = None
         try:
             from crosshair.tracers import NoTracing, is_tracing
             if is_tracing():
@@ -198,6 +213,10 @@ class untraced:
             pass
         return self
     def __exit__(self, *a):
+        import signal
+        if self._old is not None:
+            signal.alarm(0)
+            signal.signal(signal.SIGALRM, self._old)
         if self.cm is not None:
             self.cm.__exit__(*a)
         return False
